@@ -22,7 +22,7 @@ import time
 from concurrent.futures import ThreadPoolExecutor
 
 import vlib
-from vlib import BUILD, Check, RunnerPool, compile_job, hexs, log
+from vlib import BUILD, Check, RunnerPool, compile_job, hexs, log, unhex
 
 
 def driver(lines, nproc=8):
@@ -98,9 +98,22 @@ def names_for(D, base):
     return [join(D, c) for c in cands], [join(D, c) for c in decoys]
 
 
-def stmt(kind, url, k, sass):
-    s = {"import": f'@import "{url}"', "use": f'@use "{url}" as n{k}', "forward": f'@forward "{url}"'}[kind]
+def stmt(kind, url, k, sass, ns="meta"):
+    s = {"import": f'@import "{url}"', "use": f'@use "{url}" as n{k}', "forward": f'@forward "{url}"',
+         "loadcss": f'@include {ns}.load-css("{url}")'}[kind]
     return s if sass else s + ";"
+
+
+def meta_ns(path):
+    """a namespace for `sass:meta` of its own per file (load-css evaluates the loaded file in the caller's
+    environment, where the caller's namespace `meta` is already taken)"""
+    return "mt%d" % (_crc32(path.encode("utf-8")) % 1000003)
+
+
+def meta_prelude(sass, ns):
+    """`meta.load-css` needs the built-in module (no Fs call is made for it).  SCSS: on the same line as
+    the first statement, so line numbers do not move; indented syntax: a line of its own."""
+    return f'@use "sass:meta" as {ns}\n' if sass else f'@use "sass:meta" as {ns}; '
 
 
 def file_ext(path):
@@ -110,19 +123,28 @@ def file_ext(path):
     return ""
 
 
-def content(path, nxt):
+def content(path, nxt, more=()):
     """Marker rule naming the file, written in the syntax its extension selects; `nxt` = (kind, url, k)
-    of the load the file performs itself (None: none).  `s:` tells which parser read it:
-    scss/sass text evaluates 1+1 to 2 (and is not valid in the other syntaxes), plain CSS keeps `not a`
-    (SCSS would print `false`)."""
+    of the load the file performs itself (None: none), `more` further loads after it.  `s:` tells which
+    parser read it: scss/sass text evaluates 1+1 to 2 (and is not valid in the other syntaxes), plain CSS
+    keeps `not a` (SCSS would print `false`)."""
     e = file_ext(path)
     if e == "css":
         return 'm{f:"%s";s:not a}\n' % path
-    if e == "sass":
-        head = stmt(*nxt, sass=True) + "\n" if nxt else ""
+    sass = e == "sass"
+    loads = ([nxt] if nxt else []) + list(more)
+    ns = meta_ns(path)
+    head = "".join(stmt(*l, sass=sass, ns=ns) + "\n" for l in loads)
+    if any(l[0] == "loadcss" for l in loads):
+        head = meta_prelude(sass, ns) + head
+    if sass:
         return head + 'm\n  f: "%s"\n  s: 1+1\n' % path
-    head = stmt(*nxt, sass=False) + "\n" if nxt else ""
     return head + 'm{f:"%s";s:1+1}\n' % path
+
+
+def line_shift(path, loads):
+    """lines by which the statements of `path` are moved down by the `sass:meta` prelude"""
+    return 1 if file_ext(path) == "sass" and any(l[0] == "loadcss" for l in loads) else 0
 
 
 def expected_s(path):
@@ -178,7 +200,8 @@ ENTRIES = ["main.scss", "main.scss", "sub/main.scss", "sub/deep/main.scss", "sub
 LPS = ["lp1", "lp2", "sub/lp3", "lp1/in", "sub"]
 BASES = [["n", "n", "n", "foo.bar", "foo.bar", "x.import", "a-b_c", "_p", "N.SCSS"], ["k", "k", "baz.q", "_r"], ["z"]]
 UDIRS = ["", "", "", "d", "d/e", ".."]
-KINDS = ["import", "use", "forward"]
+KINDS = ["import", "use", "forward", "loadcss"]       # loadcss: `@include meta.load-css(url)` (builtin/modules/meta.rs:17)
+TAIL_KINDS = ["import", "import", "loadcss"]           # loads that may follow other statements and emit every time
 
 
 def pick_count(rng):
@@ -196,7 +219,7 @@ def gen_random(rng, mode="mem"):
         kind = rng.choice(KINDS)
         base = rng.choice(BASES[k - 1])
         if rng.random() < 0.3:
-            exts = ["scss", "sass"] if kind == "import" else ["scss", "sass", "css"]
+            exts = ["scss", "sass"] if kind == "import" else ["scss", "sass", "css"]    # `@import "x.css"` is a plain CSS import
             base = base + "." + rng.choice(exts)
         udirs = UDIRS if mode == "mem" else UDIRS[:-1]
         udir = rng.choice(udirs)
@@ -227,7 +250,7 @@ def gen_random(rng, mode="mem"):
     if rng.random() < 0.25:
         base = rng.choice(["t", "t", "tt.x"]) + rng.choice(["", "", "", ".scss", ".sass"])
         udir = rng.choice(UDIRS[:5])
-        tail = [[("import", join(udir, base))]]
+        tail = [[(rng.choice(TAIL_KINDS), join(udir, base))]]
         nested_dirs = [d for d in dict.fromkeys(dirname(f) for f in files) if d != dirname(entry)]
         for ri, root in enumerate([dirname(entry)] + lps + nested_dirs[:3]):
             cands, decoys = names_for(join(root, udir), base)
@@ -266,7 +289,8 @@ def gen_repeat(rng, mode="mem"):
     reps = rng.choice([1, 2, 2, 3])
     files[join(join(E, other), rng.choice(["a.scss", "_a.scss", "a.sass", "a/_index.scss"]))] = role(reps, 1)
     steps = [(rng.choice(KINDS), curl)]
-    tail = [[("import", curl)] for _ in range(reps)] + [[("import", join(other, "a")), (rng.choice(["import", "use"]), curl)]]
+    tail = [[(rng.choice(TAIL_KINDS), curl)] for _ in range(reps)] + \
+           [[(rng.choice(TAIL_KINDS), join(other, "a")), (rng.choice(["import", "use", "loadcss"]), curl)]]
     return mk_case(entry, steps, files, lps=lps, mode=mode, tail=tail, rooted=(rng.random() < 0.85) or mode == "std")
 
 
@@ -284,7 +308,7 @@ def gen_exhaustive(tier):
         cands, decoys = names_for(join(root, udir), base)
         universe = cands + decoys[:4]
         for kind in KINDS:
-            for r in range(0, K + 1):
+            for r in range(0, (K if kind != "loadcss" else 1) + 1):
                 for sub in itertools.combinations(universe, r):
                     out.append(mk_case(entry, [(kind, url)], {f: 1 for f in sub}, lps=lps,
                                        rooted=(len(out) % 5 != 0)))
@@ -380,15 +404,25 @@ def file_contents(case):
             return None
         j, i = k // 100 - 1, k % 100
         return (tail[j][i][0], tail[j][i][1], k + 1) if j < len(tail) and i < len(tail[j]) else None
-    out[case["entry"]] = content(case["entry"], nxt(0))
-    if tail:                         # further loads of the entry itself, after the first statement
-        sass = file_ext(case["entry"]) == "sass"
-        head, sep, rest = out[case["entry"]].partition("\n")
-        more = "\n".join(stmt(ch[0][0], ch[0][1], role(j, 0), sass) for j, ch in enumerate(tail))
-        out[case["entry"]] = head + sep + more + "\n" + rest
+    # further loads of the entry itself, after the first statement
+    out[case["entry"]] = content(case["entry"], nxt(0), [(ch[0][0], ch[0][1], role(j, 0)) for j, ch in enumerate(tail)])
     for f, k in case["files"].items():
         out[f] = content(f, nxt(k))
     return out
+
+
+def loads_of(case, path):
+    """the load statements `path` performs, in order (kind, url)"""
+    steps, tail = case["steps"], case.get("tail", [])
+    if path == case["entry"]:
+        return [tuple(steps[0])] + [tuple(ch[0]) for ch in tail] if steps else []
+    k = case["files"].get(path)
+    if k is None or k == TAIL:
+        return []
+    if k < TAIL:
+        return [tuple(steps[k])] if k < len(steps) else []
+    j, i = k // 100 - 1, k % 100
+    return [tuple(tail[j][i])] if j < len(tail) and i < len(tail[j]) else []
 
 
 def impl_job(ctx, case):
@@ -477,7 +511,7 @@ def expected_markers(case, pre, results):
     for res, w in zip(results, plan_walk(case, pre, results)):
         if not res.startswith("L:"):
             continue
-        if w is not None and w[1][0] != "import":
+        if w is not None and w[1][0] in ("use", "forward"):
             if res in modules:
                 continue
             modules.add(res)
@@ -524,6 +558,13 @@ def plan_walk(case, pre, results):
         else:
             j, importer = j + 1, res[2:]
     return out + [None] * (len(results) - len(out))
+
+
+def site_line(case, pre, imp_file, chain_no):
+    """0-based line of the load statement that failed: the entry performs its chains on consecutive lines,
+    every other file performs one load, on its first line; the `sass:meta` prelude may move them down."""
+    unp = imp_file[len(pre) + 1:] if pre and imp_file.startswith(pre + "/") else imp_file
+    return (chain_no if unp == case["entry"] else 0) + line_shift(unp, loads_of(case, unp))
 
 
 def plan_complete(case, pre, results):
@@ -666,7 +707,7 @@ def evaluate(ctx, cases, count=True):
             if ob["status"] == "notfound" and last_e and walk and walk[-1] is not None:
                 # "a URL with no match is an error at the import site": the importing file, the statement's line
                 imp_file, _, chain_no = walk[-1]
-                site = [imp_file, chain_no if imp_file == P(pre, case["entry"]) else 0]
+                site = [imp_file, site_line(case, pre, imp_file, chain_no)]
                 if ob.get("err_at") != site:
                     why.append(f"error reported at {ob.get('err_at')} instead of the import site {site}")
             if ob["status"] == "ok" and ob["steps"] is not None:
@@ -772,6 +813,8 @@ def account(ck, v):
         if any(st == case["steps"][0][1] for ch in case["tail"] for _, st in ch):
             ck.hist("same-URL-loaded-repeatedly(stylesheet cache in play)")
     ck.hist("kind=" + case["steps"][0][0])
+    for s in case["steps"][1:] + [s for ch in case.get("tail", []) for s in ch]:
+        ck.hist("later-load-kind=" + s[0])
     ck.hist("url=" + shape_of(case))
     ck.hist("load_paths=%d" % len(case["lps"]))
     ck.hist("files=%d" % min(len(case["files"]), 8))
@@ -840,8 +883,8 @@ def run_plain(ctx):
             continue
         ck.count(("plain", u, isurl, m), True)
         ck.hist("plain-css:" + obs)
-        documented = isurl or bool(m) or (mm.group(3) == "1" and len(u) >= 5)
-        if mm.group(3) == "1" and len(u) < 5:
+        documented = isurl or bool(m) or (mm.group(3) == "1" and len(u.encode("utf-8")) >= 5)
+        if mm.group(3) == "1" and len(u.encode("utf-8")) < 5:
             ck.hist("plain-css:documented-predicate-true-but-url-shorter-than-5")
         if obs != mm.group(1):
             ck.cov["model_disagreements"] += 1
@@ -850,6 +893,355 @@ def run_plain(ctx):
             ck.impl_violation(case_text, {"source": case_text, "impl_observation": obs,
                                           "expected_by_property": "plain CSS import (emitted, Fs untouched)" if documented
                                           else "Sass import (looked up through the Fs)"}, tags=[])
+
+
+# --------------------------------------------------------------------------------------------
+# raw spellings: `.` and empty segments, trailing slash, `..` above the root, absolute paths
+# (model: Grass.Import.locsR / chainsR over Rust's std::path operations; ops `chainr`, `checkr`)
+# --------------------------------------------------------------------------------------------
+
+def norm_r(p):
+    """Rust `Path` equality (components): root / a leading `.` kept, empty and `.` segments dropped."""
+    segs = p.split("/")
+    if p.startswith("/"):
+        head, body = [""], segs[1:]
+    elif segs[0] == ".":
+        head, body = ["."], segs[1:]
+    else:
+        head, body = [], segs
+    return "/".join(head + [s for s in body if s not in ("", ".")]) or ("/" if head == [""] else "")
+
+
+def respell(rng, p, hist):
+    """another spelling of the relative path `p` that names the same components"""
+    segs = p.split("/")
+    out = []
+    for i, s in enumerate(segs):
+        out.append(s)
+        if i < len(segs) - 1:
+            r = rng.random()
+            if r < 0.25:
+                out.append(""); hist.add("empty-segment(a//b)")
+            elif r < 0.5:
+                out.append("."); hist.add("dot-segment(a/./b)")
+    return "/".join(out)
+
+
+RAW_ENTRIES = ["main.scss", "sub/main.scss", "./main.scss", "sub//main.scss", "sub/./deep/main.scss", "/abs/e/main.scss",
+               "sub/main.sass", "./sub/main.scss"]
+RAW_LPS = ["lp1", "lp1/", "./lp2", "lp2//in", "/abs/lp", ".", "sub/../lp1", "lp1/."]
+RAW_BASES = ["n", "n", "foo.bar", "q.scss", "q.sass", "x.import", "_p"]
+RAW_BASES2 = ["k", "k", "baz.v", "r.scss", "_s"]
+
+
+def gen_raw(rng):
+    """One or two nested loads whose URL / importing file / load paths are spelled with `.` segments, doubled and
+    trailing slashes, leading `./`, `..` (also above the top of the tree) or as absolute paths.  Files are placed
+    at the component-normal spelling of model-chosen candidates (and sometimes under another spelling)."""
+    hist = set()
+    entry = rng.choice(RAW_ENTRIES)
+    lps = rng.sample(RAW_LPS, rng.choices([0, 1, 2], weights=[35, 45, 20])[0])
+    nsteps = rng.choices([1, 2], weights=[70, 30])[0]
+    steps = []
+    for k in range(nsteps):
+        kind = rng.choice(KINDS)
+        base = rng.choice(RAW_BASES if k == 0 else RAW_BASES2)          # distinct names per step: no import loops
+        if kind == "import" and base.endswith(".css"):
+            base = "n"
+        udir = rng.choice(["", "", "d", "d/e", "..", "../..", "../../..", "d/.."])
+        url = join(udir, base)
+        shape = rng.random()
+        if shape < 0.22:
+            url = "./" + url; hist.add("url:leading-./")
+        elif shape < 0.34:
+            url = url + "/"; hist.add("url:trailing-slash")
+        elif shape < 0.46:
+            url = "/abs/" + url.replace("../", ""); hist.add("url:absolute")
+        elif shape < 0.50:
+            url = url + "/."; hist.add("url:trailing-/.")
+        elif shape < 0.54:
+            url = join(udir, ".."); hist.add("url:ends-in-..")
+        if "/" in url and rng.random() < 0.6:
+            lead = "./" if url.startswith("./") else "/" if url.startswith("/") else ""
+            url = lead + respell(rng, url[len(lead):], hist)
+        if ".." in url.split("/"):
+            hist.add("url:has-..")
+        steps.append((kind, url))
+    return {"raw": True, "mode": "mem", "rooted": False, "decoy": False, "entry": entry, "lps": lps,
+            "steps": [list(s) for s in steps], "tail": [], "files": {}, "dirs": [], "_hist": sorted(hist),
+            "_seed": rng.random()}
+
+
+def chainr_line(case):
+    allf = [case["entry"]] + sorted(case["files"])
+    return "import chainr %s %s %s %s" % (case["entry"], lst(case["lps"]), lst(allf),
+                                         "+".join(lst([step_tok(s) for s in ch]) for ch in [case["steps"]] + case.get("tail", [])))
+
+
+def populate_raw(cases):
+    """Choose the files of each raw case from the model's own candidate list (so that deep candidates, index files
+    and load-path candidates are hit), step by step: ask the model for the probes of the chain so far, put a file
+    at one of the probed `is_file` paths (component-normal spelling, or as probed), repeat for the next step."""
+    import random as _random
+    for rnd in range(2):
+        lines = [chainr_line(c) for c in cases]
+        outs = driver(lines)
+        for c, ans in zip(cases, outs):
+            pc = parse_chain(ans)
+            if pc is None:
+                continue
+            r = _random.Random(c["_seed"] + rnd)
+            msteps = pc[0]
+            # the step to give a file to: the first failing one
+            for si, (res, _, calls) in enumerate(msteps):
+                if res != "E":
+                    continue
+                probes = [x[2:] for x in calls if x.startswith("f:")]
+                if not probes or r.random() < 0.12:
+                    break                                   # leave it not found
+                for _ in range(r.choice([1, 1, 2])):
+                    p = r.choice(probes)
+                    key = p if r.random() < 0.3 and file_ext(p) == file_ext(norm_r(p)) else norm_r(p)
+                    if key in ("", "/") or key.endswith("/") or any(norm_r(f) == norm_r(key) for f in [c["entry"]] + list(c["files"])):
+                        continue
+                    c["files"][key] = si + 1
+                if r.random() < 0.2:                         # something that only looks like a candidate
+                    c["files"].setdefault(norm_r(r.choice(probes)) + ".txt", TAIL)
+                break
+    return cases
+
+
+def expected_markers_raw(case, results):
+    keys = {norm_r(f): f for f in [case["entry"]] + list(case["files"])}
+    fs, modules = [case["entry"]], set()
+    for res, w in zip(results, plan_walk(case, "", results)):
+        if not res.startswith("L:"):
+            continue
+        k = norm_r(res[2:])
+        if w is not None and w[1][0] in ("use", "forward"):
+            if k in modules:
+                continue
+            modules.add(k)
+        fs.append(keys.get(k, "?" + res[2:]))
+    return sorted((f, expected_s(f)) for f in fs)
+
+
+def evaluate_raw(ctx, cases):
+    ck, pool = ctx.ck, ctx.pool
+    cases = populate_raw(cases)
+    outs = driver([chainr_line(c) for c in cases])
+    answers = pool.map([impl_job(ctx, c) for c in cases], timeout=20)
+    impls = [observe(ctx, c, a) for c, a in zip(cases, answers)]
+    dlines, dspan = [], []
+    for case, ob in zip(cases, impls):
+        start = len(dlines)
+        walk = plan_walk(case, "", [r for r, _ in ob["steps"]]) if ob["steps"] is not None else [None]
+        if None not in walk:
+            allf = [case["entry"]] + sorted(case["files"])
+            for (importer, step, _), (res, calls) in zip(walk, ob["steps"]):
+                dlines.append("import checkr %s %s %s %s %s %s" % (importer, lst(case["lps"]), lst(allf), step_tok(step), res, lst(calls)))
+        dspan.append((start, len(dlines), walk))
+    douts = driver(dlines) if dlines else []
+    for case, ans, ob, (a, b, walk) in zip(cases, outs, impls, dspan):
+        pc = parse_chain(ans)
+        if pc is None:
+            ck.cov["unsupported_dropped"] += 1
+            ck.hist("raw:unsupported")
+            continue
+        msteps, minfo = pc
+        failed = any(r == "E" for r, _, _ in msteps)
+        mo = {"status": "notfound" if failed else "ok", "steps": [(r, c) for r, _, c in msteps],
+              "markers": None if failed else expected_markers_raw(case, [r for r, _, _ in msteps])}
+        key = {k: case.get(k) for k in ("entry", "lps", "steps")}
+        key["files"] = sorted(case["files"].items())
+        ck.count(("raw", json.dumps(key, sort_keys=True)), any(i[1] >= 1 for i in minfo))
+        ck.hist("raw:cases")
+        for h in case["_hist"]:
+            ck.hist("raw:" + h)
+        ck.hist("raw:entry=" + ("absolute" if case["entry"].startswith("/") else "leading-./" if case["entry"].startswith("./")
+                                else "respelled" if norm_r(case["entry"]) != case["entry"] else "plain"))
+        for l in case["lps"]:
+            ck.hist("raw:load-path=" + ("absolute" if l.startswith("/") else "." if l == "." else "trailing-slash" if l.endswith("/")
+                                        else "respelled" if norm_r(l) != l or ".." in l else "plain"))
+        ck.hist("raw:kind=" + case["steps"][0][0])
+        ck.hist("raw:model:" + mo["status"])
+        for r, _ in mo["steps"]:
+            if r.startswith("L:"):
+                ck.hist("raw:loaded:" + ("other-spelling-than-the-file's-key" if r[2:] not in case["files"] else "same-spelling"))
+        tie = same_obs(case, ob, mo)
+        why = []
+        if ob["anomaly"]:
+            why.append(ob["anomaly"])
+        spec_seen = set()
+        for line, dans in zip(dlines[a:b], douts[a:b]):
+            m = re.match(r"ok (holds|fails.*) spec=(holds|fails|na)$", dans)
+            if not m:
+                why.append("checkr: " + dans)
+                continue
+            spec_seen.add(m.group(2))
+            if m.group(1) != "holds":
+                why.append("checkLoadR fails on the observation: " + dans + " <- " + line)
+            if m.group(2) == "fails":
+                why.append("a path handed to the Fs is not (a spelling of) a candidate of the documented search: " + line)
+        for s in spec_seen:
+            ck.hist("raw:probes-within-documented-candidates=" + s)
+        if a == b and not ob["anomaly"] and ob["steps"]:
+            why.append("more loads observed than the program performs")
+        if ob["steps"] is not None and not plan_complete(case, "", [r for r, _ in ob["steps"]]):
+            why.append("fewer loads observed than the program performs")
+        last_e = bool(ob["steps"]) and ob["steps"][-1][0] == "E"
+        if ob["status"] not in ("ok", "notfound") or (ob["status"] == "notfound") != last_e:
+            why.append(f"status {ob['status']} does not fit the loads observed")
+        if ob["status"] == "notfound" and last_e and walk and walk[-1] is not None:
+            imp_file, _, chain_no = walk[-1]
+            site = [imp_file, site_line(case, "", imp_file, chain_no)] if imp_file == case["entry"] else None
+            if site is None:                                # a loaded file, named as grass spelled it
+                keys = {norm_r(f): f for f in case["files"]}
+                unp = keys.get(norm_r(imp_file), imp_file)
+                site = [imp_file, line_shift(unp, loads_of(case, unp))]
+            if ob.get("err_at") != site:
+                why.append(f"error reported at {ob.get('err_at')} instead of the import site {site}")
+        if ob["status"] == "ok" and ob["steps"] is not None:
+            if ob["markers"] != expected_markers_raw(case, [r for r, _ in ob["steps"]]):
+                why.append("output markers differ from the files read")
+        text = json.dumps({k: case.get(k) for k in ("raw", "entry", "lps", "steps", "files")}, sort_keys=True)
+        payload = {"case": {k: case.get(k) for k in ("raw", "mode", "rooted", "entry", "lps", "steps", "tail", "files", "dirs")},
+                   "source_files": file_contents(case), "impl_observation": ob, "model_observation": mo, "verdict": why,
+                   "expected_by_property": "loads the first existing candidate of the documented order; probes only candidates"}
+        if not tie:
+            ck.cov["model_disagreements"] += 1
+            ctx.raw_disagreements.append(payload)
+        if why:
+            ck.impl_violation(text, payload, tags=[])
+
+
+# --------------------------------------------------------------------------------------------
+# generated `@import` argument lists: parser-level classification (model: parseImportArgs, op `args`)
+# --------------------------------------------------------------------------------------------
+
+ARG_URLS = ["a", "n", "foo.bar", "a.scss", "x.css.scss", "abcde", "css", "a.csss", "acss", "ab.cs", "http:/x", "httpx://a",
+            "https:/", "/a/b", "b.css ", "url", "u", "a.css", "A.CSS", "d/b.css", "x.Css", "http://x/y", "HTTP://X/Y", "https://x",
+            "Https://x.scss", "//cdn/x", "//a", "//ab", "//abc", ".css", "a b", "a,b", "(x)", "screen", "#{x}", "é.css", "//é",
+            "//éa", "ü.scss", "a.css?q", "a.css#h", "a;b"]
+ARG_MODS = ["screen", "(min-width: 1px)", "screen and (orientation: landscape), print", "supports(display: grid)",
+            "supports(not (display: grid)) screen", "#{screen}", "-x-y", "_m", "not screen", "only screen and (color)",
+            "\\73 creen", "(color)", "SCREEN", "--a"]
+ARG_WS = ["", " ", "  ", "\t", " \n ", "\n"]
+URL_FN_NAMES = ["url", "URL", "Url", "uRl"]
+URL_FN_CONTENTS = ["foo.scss", "a", "http://x", "a.css", "x/y.scss", "//cdn/a", "a!b%c&d*e", "~tilde", "é"]
+
+
+def rand_url(rng):
+    if rng.random() < 0.7:
+        return rng.choice(ARG_URLS)
+    alphabet = "ab./:cs-_ hHtTpP"
+    u = "".join(rng.choice(alphabet) for _ in range(rng.choice([1, 2, 3, 4, 5, 6, 9])))
+    return u + rng.choice(["", "", ".css", ".scss", "css"])
+
+
+def gen_arglist(rng):
+    """1-3 arguments; each a quoted string (either quote) or url(...); only the last may carry modifiers
+    (they run to the end of the statement).  -> (text, [shape]) with shape = (isUrlFn, url, hasModifiers)."""
+    n = rng.choices([1, 2, 3], weights=[55, 30, 15])[0]
+    parts, shapes = [], []
+    for i in range(n):
+        last = i == n - 1
+        mods = rng.choice(ARG_MODS) if last and rng.random() < 0.4 else None
+        if rng.random() < 0.18:
+            name, cont = rng.choice(URL_FN_NAMES), rng.choice(URL_FN_CONTENTS)
+            t = f"{name}({cont})"
+            shapes.append((True, cont, bool(mods)))
+        else:
+            u = rand_url(rng)
+            q = rng.choice('"\'')
+            if q in u:
+                u = u.replace(q, "")
+            t = q + u + q
+            shapes.append((False, u, bool(mods)))
+        ws = rng.choice(ARG_WS)
+        if mods:
+            t += (ws or (" " if rng.random() < 0.7 else "")) + mods      # also directly attached: `"a"screen`, `"a"(color)`
+        else:
+            t += ws
+        parts.append(rng.choice(ARG_WS[:3]) + t)
+    return ",".join(parts), shapes
+
+
+_import_rule = re.compile(r"@import ([^;]*);")
+
+
+def arg_file(u):
+    """the only file present for the Sass import of URL text `u`: the literal name when it ends in .scss/.sass
+    (with a stem), else `<u>.scss`"""
+    b = u.rsplit("/", 1)[-1]
+    return u if re.search(r".\.(scss|sass)$", b) else u + ".scss"
+
+
+def run_args(ctx, n):
+    """TIE: the kinds (plain / sass with this URL text) grass gives the arguments of a generated `@import` rule
+    = parseImportArgs on the same text.  DIRECT: they are the documented kinds of the shapes the text was built
+    from (Lean importKind, theorem C13_import_kind).  Each Sass argument's file exists, so every argument is reached."""
+    ck, pool, rng = ctx.ck, ctx.pool, ctx.ck.rng
+    cases, seen = [], set()
+    for _ in range(n * 3):
+        text, shapes = gen_arglist(rng)
+        if text not in seen:
+            seen.add(text)
+            cases.append((text, shapes))
+        if len(cases) >= n:
+            break
+    jobs, lines, plines = [], [], []
+    for text, shapes in cases:
+        files = {"main.scss": f"@import {text};\nm{{f:\"main.scss\";s:1+1}}\n"}
+        for isurl, u, mods in shapes:
+            if not isurl and u:
+                # the file a Sass import of this URL resolves to (harmless when the argument is a plain import)
+                f = arg_file(u)
+                files.setdefault(f, ('k\n  u: "%s"\n' if f.endswith(".sass") else 'k{u:"%s"}\n') % hexs(f))
+        jobs.append(compile_job(files=files, entry="main.scss"))
+        lines.append("import args " + hexs(text))
+        for isurl, u, mods in shapes:
+            plines.append("import plain %s %d %d" % (hexs(u), 1 if isurl else 0, 1 if mods else 0))
+    answers = pool.map(jobs, timeout=20)
+    outs = driver(lines)
+    pouts = iter(driver(plines))
+    for (text, shapes), ans, mo in zip(cases, answers, outs):
+        docs = [next(pouts) for _ in shapes]
+        src = f"@import {text};"
+        if not mo.startswith("ok "):
+            ck.cov["unsupported_dropped"] += 1
+            ck.hist("args:unsupported-by-the-model")
+            continue
+        model_kinds = mo[3:].split("|")
+        ck.count(("args", text), True)
+        ck.hist("args:rules")
+        ck.hist("args:arguments=%d" % len(shapes))
+        for (isurl, u, mods), k in zip(shapes, model_kinds):
+            ck.hist("args:" + ("url()" if isurl else "string") + ("+modifiers" if mods else "") + " -> " + k[:1])
+            if any(ord(ch) > 127 for ch in u):
+                ck.hist("args:non-ascii-url")
+        # observation
+        if ans.get("status") == "ok":
+            css = ans.get("css", "")
+            n_plain = len(_import_rule.findall(css))
+            loaded = [bytes.fromhex(h).decode() if h != "-" else "" for h in re.findall(r'u:\s*"([0-9a-f-]*)"', css)]
+            obs = {"plain": n_plain, "sass": loaded}
+        else:
+            obs = {"other": "%s:%s" % (ans.get("status"), ((ans.get("err") or {}).get("message") or "")[:80])}
+        want_model = {"plain": sum(1 for k in model_kinds if k == "P"),
+                      "sass": [arg_file(unhex(k[2:])) if k[2:] else "" for k in model_kinds if k.startswith("S:")]}
+        doc_kinds = []
+        for d in docs:
+            mm = re.match(r"ok (plain|sass) ", d)
+            doc_kinds.append(mm.group(1) if mm else "?")
+        want_doc = {"plain": sum(1 for k in doc_kinds if k == "plain"),
+                    "sass": [arg_file(u) for (isurl, u, mods), k in zip(shapes, doc_kinds) if k == "sass"]}
+        if obs != want_model:
+            ck.cov["model_disagreements"] += 1
+            ctx.disagreements.append({"source": src, "model_observation": want_model, "impl_observation": obs})
+        if obs != want_doc:
+            ck.impl_violation(src, {"source": src, "impl_observation": obs, "expected_by_property": want_doc,
+                                    "shapes": shapes}, tags=[])
 
 
 # --------------------------------------------------------------------------------------------
@@ -926,10 +1318,16 @@ def run(tier, seed):
         "probed path for a sample (own tree per case); further loads started by the entry itself after the nested chain, and "
         "the same URL string loaded 2-4 times and then again from a file in another directory (stylesheet cache in play); "
         "a sample on the real Fs (temp tree); plain-CSS import arguments; for a failed load the error site (importing file, "
-        "line of the statement). A case is distinct by its "
+        "line of the statement). Loads are @import / @use / @forward / meta.load-css (also nested and repeated). "
+        "Raw-spelling family: importing file, URL and load paths spelled with `.` and empty segments, leading ./, trailing "
+        "slash, `..` above the top, absolute paths; files placed at candidates chosen from the model's own probe list under the "
+        "same or another spelling (tie on the exact ordered Fs call list; Lean checkLoadR + probesWithinSpec on grass's observation). "
+        "Argument family: generated `@import` argument lists (1-3 arguments: either quote, url() in four casings, white space, 14 modifier "
+        "shapes, non-ASCII URLs) against the parser-level model parseImportArgs and the documented kinds. A case is distinct by its "
         "tree+program and non-trivial when some load has >=2 existing candidates of the specified search.")
     ck.assumptions = [
-        "paths are '/'-separated component lists; URLs relative, no empty or '.' component (driver answers `unsupported` otherwise)",
+        "component-level model: paths are '/'-separated component lists; URLs relative, no empty or '.' component (driver answers "
+        "`unsupported` otherwise); raw model: any spelling over [A-Za-z0-9._~+@/-], std::path semantics for unix",
         "in-memory Fs of the runner: a directory exists iff some file lies below it; Fs::canonicalize is the identity there",
         "which file was parsed with which syntax is observed through a marker rule whose text is valid only in that syntax",
         "layouts with two existing files in the winning same-priority group (dart-sass: ambiguous) are excluded from P̂ "
@@ -942,6 +1340,7 @@ def run(tier, seed):
     log(f"[C13] runner built at {time.time() - ck.t0:.0f}s")
     ctx = Ctx(ck, RunnerPool())
     ctx.disagreements = []
+    ctx.raw_disagreements = []
     try:
         return _run(ck, ctx, tier)
     finally:
@@ -957,7 +1356,7 @@ def _run(ck, ctx, tier):
         log(f"[C13] grass no longer shows every known finding: as-found model variant {af} used for the tie")
     cases = [dict(c) for c in CORPUS]
     cases += gen_exhaustive(tier)
-    n_rand = 4000 if tier == "quick" else 200000
+    n_rand = 4000 if tier == "quick" else 140000
     n_std = 200 if tier == "quick" else 3000
     n_decoy = 300 if tier == "quick" else 2000
     n_rep = 500 if tier == "quick" else 15000
@@ -985,6 +1384,12 @@ def _run(ck, ctx, tier):
         verdicts += vs
         log(f"[C13] evaluated {min(off + CH, len(cases))}/{len(cases)} cases")
     run_plain(ctx)
+    run_args(ctx, 1500 if tier == "quick" else 15000)
+    log(f"[C13] import-argument lists done at {time.time() - ck.t0:.0f}s")
+    n_raw = 2000 if tier == "quick" else 20000
+    for off in range(0, n_raw, 20000):
+        evaluate_raw(ctx, [gen_raw(rng) for _ in range(min(20000, n_raw - off))])
+    log(f"[C13] raw spellings done at {time.time() - ck.t0:.0f}s")
     for v in verdicts[::max(1, len(verdicts) // 8)]:
         if not v["unsupported"]:
             ck.sample({"case": case_text(v["case"]), "impl": v["impl"]["status"],
@@ -1044,8 +1449,13 @@ def _run(ck, ctx, tier):
         ck.unproved("correspondence-broken", {
             "correspondence": f"Grass.Import.chain (as-found variant {ctx.af_cur}) vs grass (loaded files, error, Fs call sequence)",
             "cases": [describe(small)] + [describe(v) for v in ties_broken[1:3]], "count": len(ties_broken)})
+    elif ctx.raw_disagreements and not reported:
+        ctx.raw_disagreements.sort(key=lambda d: len(json.dumps(d["case"])))
+        ck.unproved("correspondence-broken", {
+            "correspondence": "Grass.Import.chainsR (find_import over std::path on raw spellings) vs grass (loaded files, error, Fs call sequence)",
+            "cases": ctx.raw_disagreements[:3], "count": len(ctx.raw_disagreements)})
     elif ctx.disagreements and not reported:
-        ck.unproved("correspondence-broken", {"correspondence": "Grass.Import.importKind vs grass", "cases": ctx.disagreements[:5]})
+        ck.unproved("correspondence-broken", {"correspondence": "Grass.Import.importKind / parseImportArgs vs grass", "cases": ctx.disagreements[:5]})
     return ck.finish()
 
 
@@ -1055,6 +1465,7 @@ def replay(path):
     ck.do_build_runner()
     ctx = Ctx(ck, RunnerPool(1))
     ctx.disagreements = []
+    ctx.raw_disagreements = []
     try:
         cs = []
         if "case" in r:
